@@ -19,7 +19,7 @@ size_t g_j;                 /* second tracked slot index (value bookkeeping: har
 #define C02_BLK_SLOTS(first) ((ptrdiff_t)0)
 #else
 #define C02_REL(first, gi) ((ptrdiff_t)(gi) - (ptrdiff_t)C02_IDX(first))
-#define C02_BLK_SLOTS(first) ((ptrdiff_t)(__CPROVER_OBJECT_SIZE(first) / C02_SZ))
+#define C02_BLK_SLOTS(first) ((ptrdiff_t)(__CPROVER_OBJECT_SIZE(first) C02_SHR))
 #endif
 /* the slot with relative index r exists in the block that holds `first` */
 #define C02_EXISTS(first, r) ((r) + (ptrdiff_t)C02_IDX(first) >= 0 && (r) + (ptrdiff_t)C02_IDX(first) < C02_BLK_SLOTS(first))
@@ -27,9 +27,8 @@ size_t g_j;                 /* second tracked slot index (value bookkeeping: har
 /* state of one tracked slot (relative index kk) after n steps of a shifting assignment loop
  *   asg: slot already assigned   mov: slot already moved-from (only for move loops)   */
 #define C02_SHIFT_INV(first, kk, ex, asg, mov, s, vsrc, st0, v0)                                              \
-    (!(ex) || ((asg) && (s) != 0 ? ((first)[kk].g_state == ELEM_LIVE && (first)[kk].v == (vsrc))            \
-               : (mov) && !(asg) ? (first)[kk].g_state == ELEM_MOVED                                        \
-                                 : ((first)[kk].g_state == (st0) && (first)[kk].v == (v0))))
+    (!(ex) || C02_IS(&(first)[kk], ((asg) && (s) != 0) ? ELEM_LIVE : ((mov) && !(asg)) ? ELEM_MOVED : (st0),             \
+                     ((asg) && (s) != 0) ? (vsrc) : (v0)))
 
 /* std::move_backward(first, last, d_last): for n = 1..N  *(d_last - n) = std::move(*(last - n)); returns d_last - N */
 static inline ELEM *c02_std_move_backward(ELEM *first, ELEM *last, ELEM *d_last)
@@ -43,9 +42,11 @@ static inline ELEM *c02_std_move_backward(ELEM *first, ELEM *last, ELEM *d_last)
     ptrdiff_t ka = C02_REL(first, g_k), kb = C02_REL(first, g_j);
     _Bool exa = C02_EXISTS(first, ka), exb = C02_EXISTS(first, kb);
     _Bool sea = exa && C02_EXISTS(first, ka - s), seb = exb && C02_EXISTS(first, kb - s);
-    unsigned char sa0 = exa ? first[ka].g_state : 0, sb0 = exb ? first[kb].g_state : 0;
-    int va0 = exa ? first[ka].v : 0, vb0 = exb ? first[kb].v : 0;
-    int vas = sea ? first[ka - s].v : 0, vbs = seb ? first[kb - s].v : 0;
+    ELEM ea, eb, eas, ebs;
+    ea.g_bits = exa ? first[ka].g_bits : 0; eb.g_bits = exb ? first[kb].g_bits : 0;
+    eas.g_bits = sea ? first[ka - s].g_bits : 0; ebs.g_bits = seb ? first[kb - s].g_bits : 0;
+    unsigned char sa0 = ELEM_ST(&ea), sb0 = ELEM_ST(&eb);
+    int va0 = ELEM_V(&ea), vb0 = ELEM_V(&eb), vas = ELEM_V(&eas), vbs = ELEM_V(&ebs);
     for (ptrdiff_t n = 0; n < N; n++)
     __CPROVER_assigns(n, __CPROVER_object_whole(first))
     __CPROVER_loop_invariant(0 <= n && n <= N)
@@ -69,9 +70,11 @@ static inline ELEM *c02_std_move(ELEM *first, ELEM *last, ELEM *d_first)
     ptrdiff_t ka = C02_REL(first, g_k), kb = C02_REL(first, g_j);
     _Bool exa = C02_EXISTS(first, ka), exb = C02_EXISTS(first, kb);
     _Bool sea = exa && C02_EXISTS(first, ka - s), seb = exb && C02_EXISTS(first, kb - s);
-    unsigned char sa0 = exa ? first[ka].g_state : 0, sb0 = exb ? first[kb].g_state : 0;
-    int va0 = exa ? first[ka].v : 0, vb0 = exb ? first[kb].v : 0;
-    int vas = sea ? first[ka - s].v : 0, vbs = seb ? first[kb - s].v : 0;
+    ELEM ea, eb, eas, ebs;
+    ea.g_bits = exa ? first[ka].g_bits : 0; eb.g_bits = exb ? first[kb].g_bits : 0;
+    eas.g_bits = sea ? first[ka - s].g_bits : 0; ebs.g_bits = seb ? first[kb - s].g_bits : 0;
+    unsigned char sa0 = ELEM_ST(&ea), sb0 = ELEM_ST(&eb);
+    int va0 = ELEM_V(&ea), vb0 = ELEM_V(&eb), vas = ELEM_V(&eas), vbs = ELEM_V(&ebs);
     for (ptrdiff_t n = 0; n < N; n++)
     __CPROVER_assigns(n, __CPROVER_object_whole(first))
     __CPROVER_loop_invariant(0 <= n && n <= N)
@@ -96,9 +99,11 @@ static inline ELEM *c02_std_copy(const ELEM *first_c, const ELEM *last, ELEM *d_
     ptrdiff_t ka = C02_REL(first, g_k), kb = C02_REL(first, g_j);
     _Bool exa = C02_EXISTS(first, ka), exb = C02_EXISTS(first, kb);
     _Bool sea = exa && C02_EXISTS(first, ka - s), seb = exb && C02_EXISTS(first, kb - s);
-    unsigned char sa0 = exa ? first[ka].g_state : 0, sb0 = exb ? first[kb].g_state : 0;
-    int va0 = exa ? first[ka].v : 0, vb0 = exb ? first[kb].v : 0;
-    int vas = sea ? first[ka - s].v : 0, vbs = seb ? first[kb - s].v : 0;
+    ELEM ea, eb, eas, ebs;
+    ea.g_bits = exa ? first[ka].g_bits : 0; eb.g_bits = exb ? first[kb].g_bits : 0;
+    eas.g_bits = sea ? first[ka - s].g_bits : 0; ebs.g_bits = seb ? first[kb - s].g_bits : 0;
+    unsigned char sa0 = ELEM_ST(&ea), sb0 = ELEM_ST(&eb);
+    int va0 = ELEM_V(&ea), vb0 = ELEM_V(&eb), vas = ELEM_V(&eas), vbs = ELEM_V(&ebs);
     for (ptrdiff_t n = 0; n < N; n++)
     __CPROVER_assigns(n, __CPROVER_object_whole(first))
     __CPROVER_loop_invariant(0 <= n && n <= N)
@@ -126,7 +131,7 @@ static inline bool c02_std_lexicographical_compare(const ELEM *f1, const ELEM *l
     __CPROVER_assigns(f1, f2, g_lex_m)
     __CPROVER_loop_invariant(__CPROVER_same_object(f1, l1) && __CPROVER_same_object(f2, l2) && f1 <= l1 && f2 <= l2)
     __CPROVER_loop_invariant(f1 - b1 == f2 - b2 && g_lex_m == (size_t)(f1 - b1))
-    __CPROVER_loop_invariant(!(g_k < g_lex_m) || b1[g_k].v == b2[g_k].v)
+    __CPROVER_loop_invariant(!(g_k < g_lex_m) || ELEM_V(&b1[g_k]) == ELEM_V(&b2[g_k]))
     __CPROVER_decreases(l1 - f1)
     {
         if (ELEM_value(f1) < ELEM_value(f2)) return true;
